@@ -270,13 +270,30 @@ def eval_tree(ctx, case):
     root_cfg = {"template": "file://probe.templ", "require-template-schema-exists": False, "formatter": "noop"}
     if case["excl_root"]:
         root_cfg["exclude-subpkg-regex"] = case["excl_root"]
-    cfg = dict(root_cfg, packages={MOD + "/" + p: {"config": c} for p, c in case["pkcfg"].items()})
+    written = {p: dict(c) for p, c in case["pkcfg"].items()}
+    env_extra = None
+    rr = case.get("root_recursive")
+    if rr:
+        # the same configuration with `recursive: true` made at the top level (config file or MOCKERY_RECURSIVE): the recursive packages
+        # inherit it, every other configured package says `recursive: false` itself (an explicit default is a setting)
+        rr = rr if isinstance(rr, str) else ("file" if case["i"] % 2 else "env")
+        for p, c in written.items():
+            if c.get("recursive"):
+                del c["recursive"]
+            else:
+                c["recursive"] = False
+        if rr == "file":
+            root_cfg = dict(root_cfg, recursive=True)
+        else:
+            env_extra = {"MOCKERY_RECURSIVE": "true"}
+    cfg = dict(root_cfg, packages={MOD + "/" + p: {"config": c} for p, c in written.items()})
     files[".mockery.yml"] = json.dumps(cfg)
+    root_cfg = {k: v for k, v in root_cfg.items() if k != "recursive"}   # (the model below works on the per-package form)
     root = core.scratch_module(ctx, files)
-    r = core.run_mockery(ctx, root, [], timeout=300)
+    r = core.run_mockery(ctx, root, [], timeout=300, env_extra=env_extra)
     if r.timed_out:
         return Verdict.inconclusive("watchdog")
-    obs = {"exit": r.exit}
+    obs = {"exit": r.exit, "root_recursive": rr or None}
     if r.panicked:
         return Verdict.violated("mockery crashed", dict(obs, **r.brief()))
     # model
@@ -433,6 +450,11 @@ def fixed_tree_cases():
     cases.append({"kind": "tree", "i": 9801, "dirs": sdirs, "pkcfg": {"t/v%d/api" % (k + 1): sel[k] for k in range(4)}, "excl_root": None, "root_recursive": False})
     cases.append({"kind": "tree", "i": 9802, "dirs": sdirs, "pkcfg": {"t/v1": dict(sel[0], recursive=True), "t/v2": dict(sel[1], recursive=True), "t/v3": dict(sel[2], recursive=True)},
                   "excl_root": None, "root_recursive": False})
+    # fixed trees: `recursive: true` made only at the top level (config file / MOCKERY_RECURSIVE), inherited by one package and refused by another
+    gdirs = {"t": "go", "t/a": "go", "t/a/b": "go", "t/c": "testonly", "u": "go", "u/x": "go", "u/x/y": "go"}
+    for j, mode in enumerate(("file", "env")):
+        cases.append({"kind": "tree", "i": 9400 + j, "dirs": gdirs, "excl_root": None, "root_recursive": mode,
+                      "pkcfg": {"t": {"recursive": True, "all": True, "structname": "R0_{{.InterfaceName}}"}, "u": {"all": True, "structname": "E0_{{.InterfaceName}}"}}})
     return cases
 
 
